@@ -49,7 +49,11 @@ fn step(server: &Server, cid: u128, parent: u128, data: Bytes, pc: &mut u8) -> O
                     match t.new_client(Uuid::nil()) {
                         Err(e) => {
                             std::mem::forget(e);
-                            out = OpRes::Error;
+                            // a handler may treat a failing create as "another request created the
+                            // client" and simply retry
+                            if !CREATE_IGNORE_ERR {
+                                out = OpRes::Error;
+                            }
                         }
                         Ok(()) => {
                             if let Err(e) = t.commit() {
